@@ -164,6 +164,18 @@ func (d *Driver) Apply(a Action) (Event, bool) {
 	case "SettingReconcile":
 		d.Applied++
 		return d.Emit(c.Reconcile("setting", ns, name)), true
+	case "ERSReconcileFaulty":
+		// one sync whose pod create / delete calls are refused by the API according to V (first | alt | all)
+		c.mu.Lock()
+		c.PodFault, c.podFaultCnt = a.V, 0
+		c.mu.Unlock()
+		b := a
+		b.Op = "ERSReconcile"
+		ev, ok := d.Apply(b)
+		c.mu.Lock()
+		c.PodFault = ""
+		c.mu.Unlock()
+		return ev, ok
 	case "ERSReconcile":
 		var rsName string
 		if a.I > 0 {
@@ -220,6 +232,14 @@ func (d *Driver) Apply(a Action) (Event, bool) {
 		return env(c.SetTemplate(ns, name, a.T))
 	case "SetStrategy":
 		return env(c.SetStrategy(ns, name, d.Strategy[a.Key]))
+	case "SetCanaryReplicas":
+		sc := d.Strategy[a.Key]
+		if !sc.Canary || sc.CReplicas == a.V {
+			return env(fmt.Errorf("no-op"))
+		}
+		sc.CReplicas = a.V
+		d.Strategy[a.Key] = sc
+		return env(c.SetStrategy(ns, name, sc))
 	case "SetAnnotation":
 		v := a.W
 		if a.V == "c-valid" && a.W != "" {
@@ -321,6 +341,14 @@ func (d *Driver) Apply(a Action) (Event, bool) {
 			return env(fmt.Errorf("pre"))
 		}
 		return env(c.KUnready(p))
+	case "KReadyUnknown":
+		// the node stopped reporting: the node lifecycle controller sets Ready=Unknown on its pods
+		if p.DeletionTimestamp != nil || p.Status.Phase != corev1.PodRunning {
+			return env(fmt.Errorf("pre"))
+		}
+		setPodCond(p, corev1.PodReady, corev1.ConditionUnknown, "NodeStatusUnknown")
+		mainStatus(p).Ready = false
+		return env(c.rawUpdate(p))
 	case "KRestart":
 		if p.DeletionTimestamp != nil {
 			return env(fmt.Errorf("pre"))
@@ -449,6 +477,10 @@ type WalkConfig struct {
 	Foreign   bool
 	Narrow    bool // allow per-template fitness to differ
 	Commands  bool // kubectl-eds commands
+	Strategy  bool // the user edits the strategy (canary replicas as number / percentage) while things run
+	APIFaults bool // single replica-set syncs whose first (or every second) pod create / delete call is refused by the API
+	Settings  bool // ExtendedDaemonsetSettings created / reconciled / deleted, node groups relabelled, node override annotations
+	Meta      bool // the ExtendedDaemonSet's own metadata carries the controller's label / annotation keys with stale values
 }
 
 type weighted struct {
@@ -529,6 +561,41 @@ func (d *Driver) Walk(r *rand.Rand, wc WalkConfig) {
 		acts = append(acts, weighted{5, func() Action {
 			return Action{Op: "Cmd", Key: key, V: pick([]string{"canary-pause", "canary-unpause", "canary-validate", "canary-fail", "ru-pause", "ru-unpause", "freeze", "unfreeze"})}
 		}})
+	}
+	if wc.Strategy && wc.Canary {
+		acts = append(acts, weighted{4, func() Action {
+			return Action{Op: "SetCanaryReplicas", Key: key, V: pick([]string{"1", "2", "3", "10%", "50%", "100%"})}
+		}})
+	}
+	if wc.APIFaults {
+		acts = append(acts, weighted{6, func() Action {
+			return Action{Op: "ERSReconcileFaulty", Key: key, T: pick(wc.Templates), V: pick([]string{"first", "alt", "all"})}
+		}})
+	}
+	if wc.Faulty {
+		acts = append(acts, weighted{3, func() Action { return Action{Op: "KReadyUnknown", N: pick(wc.Nodes), I: 1 + r.Intn(2)} }})
+	}
+	if wc.Settings {
+		sets := []string{"s1", "s2", "s3"}
+		acts = append(acts,
+			weighted{4, func() Action {
+				s := pick(sets)
+				return Action{Op: "CreateSetting", Key: key, V: s, W: pick([]string{name, name, ""}) + "|" + pick([]string{"g1", "g2", "g1+g2", "!bad"}) + "|r" + s[1:] + "|", I: r.Intn(2)}
+			}},
+			weighted{2, func() Action { return Action{Op: "DeleteSetting", Key: key, V: pick(sets)} }},
+			weighted{8, func() Action { return Action{Op: "SettingReconcile", Key: ns + "/" + pick(sets)} }},
+			weighted{3, func() Action { return Action{Op: "NodeGroup", N: pick(wc.Nodes), V: pick([]string{"g1", "g2", ""})} }},
+			weighted{2, func() Action {
+				return Action{Op: "NodeOverride", Key: key, N: pick(wc.Nodes), V: pick([]string{"none", "r1", "r2", "bad"}), W: pick([]string{"", SideContainer})}
+			}},
+		)
+	}
+	if wc.Meta {
+		acts = append(acts,
+			weighted{2, func() Action {
+				return Action{Op: "SetAnnotation", Key: key, V: "tmpl-hash", W: pick([]string{"0123456789abcdef0123456789abcdef", ""})}
+			}},
+		)
 	}
 	if wc.Foreign {
 		acts = append(acts,
